@@ -85,8 +85,21 @@ CLAIMS = {
              "byte-exact content of the message copy rests on the substdio contracts (count level here); loss of unsynced "
              "data is represented as the requirement 'synced before publication', not simulated.",
         design_ref="DESIGN.md section 5 C01"),
+    "C12": dict(
+        text="Proof (CBMC) on the unmodified qmail-local.c: maildir_child() (complete by constant unwinding, every call may "
+             "fail): the message is linked into new/ only after both header lines and the whole message were written and the "
+             "file was flushed, fsynced and closed, under the tmp/ name just created; exit 0 iff linked; tmp removed on every "
+             "exit; maildir(): success only for child status 0. mailfile() (loop contract, any number and length of lines): "
+             "lock requested before the previous length is recorded and before any write; From_, Return-Path, Delivered-To, "
+             "every line once and unchanged, > prefix iff gfrom, missing final newline added, one blank separator; on any "
+             "read/write/flush/fsync failure truncation to exactly the previous length (when locked) and exit 111; success "
+             "only after fsync. gfrom(): unbounded lemma for lines not starting with >, bounded lemma (<= 24 bytes) "
+             "gfrom('>'+l) = gfrom(l); their combination (l matches >*From_) is a hand induction.",
+        note="Concurrent deliveries are not modelled: lock_ex is assumed to give mutual exclusion. Content of the copied "
+             "message rests on the substdio/getln contracts. The sender-sanitising loop in main is not covered.",
+        design_ref="DESIGN.md section 5 C12"),
 }
 
 NOT_APPLICABLE = {p: PENDING for p in
-                  ["C02", "C03", "C04", "C10", "C11", "C12", "C13", "C14",
+                  ["C02", "C03", "C04", "C10", "C11", "C13", "C14",
                    "C16", "C17", "C19", "C20"]}
